@@ -78,6 +78,9 @@ pub fn classify(ctx: &mut Ctx, m: &Movie) -> bool {
     if m.tracks.len() >= 2 {
         ctx.count("movie:multi-track");
     }
+    if m.tracks.iter().any(|t| t.elst.as_ref().map_or(false, |e| e.iter().any(|x| x.1 != 0 && x.1 < u32::MAX as u64))) {
+        ctx.count("movie:edit-list-with-non-zero-media-time");
+    }
     if m.large_moof {
         ctx.count("movie:moof-with-64-bit-size-header");
     }
